@@ -117,7 +117,7 @@ def d14_leading_zeros(s, log):
 
 def d5_wrapping(s, log):
     """D5: core::num::Wrapping => local shim with verified operators."""
-    return _sub(r'use core::num::Wrapping as w;', 'use crate::shims::Wrapping as w;', s, log, 'D5')
+    return _sub(r'use core::num::Wrapping as w;', 'use crate::wrapping::Wrapping as w;', s, log, 'D5')
 
 
 def d3_paths(s, log):
